@@ -103,7 +103,70 @@ def prog_sig(tid, seed):
   return run
 
 
-PROGS = {'build': prog_build, 'edit': prog_edit, 'copy': prog_copy_dump, 'sig': prog_sig}
+def prog_fail(tid, seed):
+  """A build that fails with an exception class private to this thread (every thread's class
+  has the same module and qualified name): the thread must be able to catch ITS OWN class, and
+  the message must carry the context of ITS OWN configuration."""
+  def run():
+    class StageFailed(RuntimeError):
+      pass
+    StageFailed.__module__ = 'harness.props.C19'
+    StageFailed.__qualname__ = 'StageFailed'
+
+    def stage(owner=None, pad=0):
+      raise StageFailed(f'stage of {owner} failed')
+    stage.__module__ = 'harness.props.C19'
+    stage.__qualname__ = f'stage_{tid}'
+    cfg = fdl.Config(fresh_fn(f'f{tid}_{seed}'), p=[fdl.Config(stage, owner=tid)])
+    try:
+      fdl.build(cfg)
+      return ['fail', 'no exception']
+    except StageFailed as e:
+      return ['fail', 'caught own class', f'owner={tid}' in str(e) and f'stage of {tid} failed' in str(e),
+              bool(getattr(building._state, 'in_build', False))]
+    except Exception as e:
+      return ['fail', 'not caught by its own class', type(e).__qualname__]
+  return run
+
+
+def prog_tracking_off(tid, seed):
+  """A thread that switches history tracking off for itself and ends that way, followed (in the
+  same OS thread slot) by nothing: other threads, also later ones, must still track."""
+  def run():
+    f = fresh_fn(f't{tid}_{seed}', 'p=None, q=1')
+    box = {}
+
+    def child():
+      fdl_history.set_tracking(enabled=False)
+      c = fdl.Config(f)
+      c.p = 1
+      box['child_entries'] = len(c.__argument_history__.get('p', []))
+    t = threading.Thread(target=child)
+    t.start()
+    t.join()
+    # a NEW thread started afterwards (it may get the recycled thread identifier)
+    def later():
+      c = fdl.Config(f)
+      c.p = 2
+      box['later_enabled'] = fdl_history.tracking_enabled()
+      box['later_entries'] = len(c.__argument_history__.get('p', []))
+    t2 = threading.Thread(target=later)
+    t2.start()
+    t2.join()
+    cfg = fdl.Config(f)
+    cfg.q = 3
+    return ['tracking_off', box.get('child_entries'), box.get('later_enabled'), box.get('later_entries'),
+            fdl_history.tracking_enabled(), len(cfg.__argument_history__.get('q', []))]
+  return run
+
+
+EXPECTED_ALONE = {
+    'fail': lambda tid: ['fail', 'caught own class', True, False],
+    'tracking_off': lambda tid: ['tracking_off', 0, True, 1, True, 1],
+}
+
+PROGS = {'build': prog_build, 'edit': prog_edit, 'copy': prog_copy_dump, 'sig': prog_sig,
+         'fail': prog_fail, 'tracking_off': prog_tracking_off}
 
 
 def cases(tier, r):
@@ -164,6 +227,8 @@ MODEL_OPS = {
              ['resume'], ['readTracking'], ['resume'], ['log', 'q'], ['log', 'r'], ['readTracking']],
     'copy': [],
     'sig': [],
+    'fail': [['enterBuild'], ['exitBuild'], ['readInBuild']],
+    'tracking_off': [],
 }
 
 
@@ -184,6 +249,8 @@ def real_as_model_outputs(kind, res):
     return ['raised']
   if kind == 'build':
     return ['ok', 'ok', 'ok', 'nested-rejected' if res[2] == 'nested-rejected' else 'ok', 'ok', bool(res[3])]
+  if kind == 'fail':
+    return ['ok', 'ok', bool(res[3])] if len(res) > 3 else ['raised']
   if kind == 'edit':
     inside, still, after = res[2]
     logged = list(res[6]) if len(res) > 6 else None
@@ -202,6 +269,10 @@ def execute(case):
   kinds, seed = case['progs'], case['seed']
   alone = run_alone(kinds, seed)
   obs = {'alone': alone, 'mismatches': [], 'runs': 0, 'steps': 0, 'dup_ids': 0}
+  for tid, (k, res) in enumerate(zip(kinds, alone)):
+    if k in EXPECTED_ALONE and res != EXPECTED_ALONE[k](tid):
+      obs['mismatches'].append(['alone', f'program {k} run after other programs of the same process does not '
+                                'observe what it observes in a fresh process', res])
   # calibrate: number of line-level steps of thread 0 when it runs first to completion
   _, total, _, _ = run_scheduled(kinds, seed, lambda step, cur, alive: cur)
   obs['steps'] = total
